@@ -35,6 +35,11 @@ def jobs(tier):
                     'ranks': list(ranks), 'variant': variant, 'budget': budget, 'cost': cost})
     for key in H.ALL:
         tm = key in H.TM
+        if not tm:
+            # per-call tau (symbolic, 0 included) on a model with its own symbolic tau: the bound uses the per-call value
+            for shape, W in [((1, 1), (0, 1)), ((1, 1), (0, 0)), ((2, 1), (1, 0))]:
+                add(key, shape, W, 'pc', 600, 20)
+                add(key, shape, W, 'pcls', 600, 40)
         for variant in ('plain', 'ls', 'uf'):
             for shape in [(1, 1), (2, 1)]:
                 for W in H.weak_orders(2):
@@ -181,8 +186,11 @@ def run_job(spec, ctx):
     tm = key in H.TM
     core.install()
     cfg = {}
-    if variant == 'ls':
+    call = {}
+    if variant in ('ls', 'pcls'):
         cfg['limit_sigma'] = True
+    if variant in ('pc', 'pcls'):
+        call['tau'] = 'sym:tc'
     if variant == 'uf':
         def G(c, k, mu, ss, team, rank):
             return core.uf_app_n('gamma', [c, mu, ss], consts=(k, rank, tuple(id(p) for p in team)), rf=core.F(0.0, False),
@@ -195,14 +203,22 @@ def run_job(spec, ctx):
         _install_tm_lemmas(key, ctx, pre_log)
     tau = z3.Real('tau')
     names = H.sym_names(shape)
+    pc = variant in ('pc', 'pcls')
+    if pc:
+        tau = z3.Real('tc')            # the tau in force for this call
+        names = names + ['tc']
+        extra += [tau >= 0, tau <= 10 * z3.Real('beta')]
 
     def draw(rng):
         e = H.draw_fn(shape)(rng)
         if tm:
             e['kappa'] = min(e['kappa'], 0.0141 * e['beta'])
+        e['tc'] = rng.choice([0.0, 0.0, e['beta'] / 40, e['beta']])
         return e
     first = True
-    for (kind, out), eng in H.iter_rate(key, shape, ranks=ranks, cfg=cfg, ctx=ctx, extra_base=extra, draw=draw,
+    if pc:
+        H.set_facts(shape)
+    for (kind, out), eng in H.iter_rate(key, shape, ranks=ranks, cfg=cfg, call=call, ctx=ctx, extra_base=extra, draw=draw,
                                         validate=(variant != 'uf')):
         if ctx.candidates:
             break
@@ -220,7 +236,7 @@ def run_job(spec, ctx):
                 sp = core.lift(out[i][j][1])
                 sg = z3.Real(H.pname('sg', i, j))
                 obl = [('sigma\' > 0', sp <= 0), ('sigma\'^2 <= sigma^2 + tau^2', sp * sp > sg * sg + tau * tau)]
-                if variant == 'ls':
+                if variant in ('ls', 'pcls'):
                     obl.append(('sigma\' <= sigma (limit_sigma)', sp > sg))
                 for desc, neg in obl:
                     r, m = eng.check_lemma(neg, timeout=20000)
@@ -251,11 +267,17 @@ def replay(cand):
     if key in H.TM:
         inp['kappa'] = min(inp['kappa'], 0.014142 * inp['beta'])
     cfg = {}
-    if variant == 'ls':
+    call = {}
+    if variant in ('ls', 'pcls'):
         cfg['limit_sigma'] = True
+    if variant in ('pc', 'pcls'):
+        inp.setdefault('tc', 0.0)
+        call['tau'] = 'sym:tc'
     if variant == 'uf':
         cfg['gamma'] = lambda c, k, mu, ss, team, rank: 0.3 + (0.1 * abs(mu)) % 1.0
-    prior, post, m = H.rate_float(key, shape, inp, ranks=ranks, cfg=cfg)
+    prior, post, m = H.rate_float(key, shape, inp, ranks=ranks, cfg=cfg, call=call)
+    if variant in ('pc', 'pcls'):
+        inp = dict(inp, tau=inp['tc'])
     probs = []
     for i, (tp, tq) in enumerate(zip(prior, post)):
         for j, ((m0, s0), (m1, s1)) in enumerate(zip(tp, tq)):
@@ -264,7 +286,7 @@ def replay(cand):
                 probs.append(f'player ({i},{j}) sigma\' = {s1!r}')
             elif s1 > bound * (1 + 1e-9):
                 probs.append(f'player ({i},{j}) sigma {s0!r} -> {s1!r} > sqrt(sigma^2+tau^2) = {bound!r}')
-            elif variant == 'ls' and s1 > s0 * (1 + 1e-12):
+            elif variant in ('ls', 'pcls') and s1 > s0 * (1 + 1e-12):
                 probs.append(f'player ({i},{j}) sigma {s0!r} -> {s1!r} although limit_sigma')
     return {'violated': bool(probs), 'key': f'{key}:{H.shape_str(shape)}:{H.ranks_str(ranks)}:{variant}',
             'detail': f'C06 {H.MODEL_NAMES[key]} shape={shape} ranks={ranks} variant={variant} inputs={inp}: ' + '; '.join(probs[:3])}
